@@ -774,22 +774,93 @@ func checkC10(c *Ctx, r *Report) {
 				}
 				r.Check(!unanswered, "C10.R8", fnKey(g)+": an unparseable request on the tunnel is answered before the tunnel closes", c.InstrPos(read), "the non-EOF error edge of http.ReadRequest passes WriteError", "a malformed request inside a CONNECT tunnel (`GET index.html HTTP/1.1`, a header line without a colon, two Content-Length headers) makes the loop close the connection without any response; the same bytes on a plain connection get 400 Bad Request")
 			}
-			// (b) the error edge of the exchange does not lead back to ReadRequest
-			errBack := false
-			if errv := ssa.Value(handle); errv != nil {
+			// (b) an exchange whose response could not be written completely ends the tunnel: on the side where the error is
+			// the incomplete-response sentinel the loop cannot reach ReadRequest again (an exchange that failed but was
+			// answered in full — 416, 502 — may leave the tunnel open, as a plain connection stays usable)
+			errBack := true
+			errv := ssa.Value(handle)
+			for _, blk := range g.Blocks {
+				iff, ok := blk.Instrs[len(blk.Instrs)-1].(*ssa.If)
+				if !ok {
+					continue
+				}
+				cv, positive := stripNot(iff.Cond)
+				isCall, ok := cv.(*ssa.Call)
+				if !ok || calleeName(isCall) != "errors.Is" || !derivesFrom(isCall.Call.Args[0], func(v ssa.Value) bool { return v == errv }) {
+					continue
+				}
+				u, ok := isCall.Call.Args[1].(*ssa.UnOp)
+				if !ok {
+					continue
+				}
+				gl, ok := u.X.(*ssa.Global)
+				if !ok || gl.Name() != "ErrResponseIncomplete" {
+					continue
+				}
+				trueIdx := 0
+				if !positive {
+					trueIdx = 1
+				}
+				if len(walkFrom(pos{blk.Succs[trueIdx], 0}, nil, func(in ssa.Instruction) bool { return in == ssa.Instruction(read) }, nil)) == 0 {
+					errBack = false
+				}
+			}
+			// a loop that leaves on every error is fine too
+			if errBack {
+				all := len(nilTestsOn(g, errv)) > 0
 				for _, t := range nilTestsOn(g, errv) {
 					nonNil := t.blk.Succs[1-t.nilIdx]
 					if len(walkFrom(pos{nonNil, 0}, nil, func(in ssa.Instruction) bool { return in == ssa.Instruction(read) }, nil)) > 0 {
-						errBack = true
+						all = false
 					}
 				}
-				if len(nilTestsOn(g, errv)) == 0 {
-					errBack = true
+				if all {
+					errBack = false
 				}
 			}
-			r.Check(!errBack, "C10.R8", fnKey(g)+": a failed exchange ends the tunnel", c.InstrPos(handle), "the err != nil edge of handleHTTP cannot reach http.ReadRequest again", "after an exchange that ended with an error (e.g. the origin cut its body short of the announced Content-Length) the loop goes on reading requests: the next response is written into the middle of the broken one")
+			r.Check(!errBack, "C10.R8", fnKey(g)+": a failed exchange ends the tunnel", c.InstrPos(handle), "the incomplete-response side of handleHTTP's error cannot reach http.ReadRequest again", "after an exchange whose response was cut short (e.g. the origin sent less than the Content-Length it announced) the loop goes on reading requests: the next response is written into the middle of the broken one")
 		}
 	}
+
+	// R8(d): a failed Responder.Write is reported as an incomplete response (so that the tunnel loop can tell it from
+	// an exchange that was answered in full)
+	nW := 0
+	for _, f := range li.Fns {
+		if originPkgPath(f) != proxyPkg {
+			continue
+		}
+		eachInstr(f, func(in ssa.Instruction) {
+			call, ok := in.(*ssa.Call)
+			if !ok || calleeName(call) != "(reservoir/proxy/responder.Responder).Write" {
+				return
+			}
+			nW++
+			errv := extractOf(call, 1)
+			okS := errv != nil
+			if okS {
+				eachInstr(f, func(i2 ssa.Instruction) {
+					ret, isRet := i2.(*ssa.Return)
+					if !isRet || isRecoverReturn(ret) || !onlyWhenNil(f, ret, errv, false) {
+						return
+					}
+					vals := retVals(ret)
+					carries := len(vals) > 0 && derivesFrom(vals[len(vals)-1], func(v ssa.Value) bool {
+						u, ok := v.(*ssa.UnOp)
+						if !ok {
+							return false
+						}
+						gl, ok := u.X.(*ssa.Global)
+						return ok && gl.Name() == "ErrResponseIncomplete"
+					})
+					if !carries {
+						okS = false
+					}
+				})
+			}
+			r.Check(okS, "C10.R8", fmt.Sprintf("%s: a failed response write is reported as ErrResponseIncomplete (#%d)", fnKey(f), nW), c.InstrPos(call), "every return on the err != nil edge of Write wraps the sentinel", "a response that could not be written completely is reported like any other error: the tunnel loop cannot tell that the connection is out of step")
+		})
+	}
+	r.Floor("C10.R8", nW, 1, "Responder.Write call sites in package proxy")
 
 	// ---- R7: framing on the raw connection. A response that cannot have a body (1xx, 204, 304, the answer to HEAD =
 	// http.NoBody) is never given a chunked transfer encoding: the terminating chunk would stay unread on the tunnel
